@@ -8,6 +8,12 @@ def R(pkg, run, quick, thorough, **kw):
 LAB = "./internal/zzverif/lab"
 
 CHECKS = {
+    "C14": {
+        "runs": [
+            R("./pac", "^TestC14Tree", {"checks": 700, "timeout": 600}, {"checks": 4000, "shards": 16, "timeout": 2400}, race=True),
+            R("./pac", "^TestC14(Entry|List)", {"checks": 3000, "timeout": 600}, {"checks": 50000, "shards": 2, "timeout": 2400}),
+        ],
+    },
     "C03": {
         "runs": [
             R(LAB, "^TestC03Tunnel", {"checks": 2500, "timeout": 900}, {"checks": 1500, "shards": 16, "timeout": 3000}, race=True),
@@ -83,6 +89,10 @@ CHECKS = {
 LEVELS = {"C12": "fault_enumeration"}  # default: exploration
 
 RULES = {
+    "C14": "(Tree) rapid draws a decision-tree PAC script from an AST: conditions are calls of isPlainHostName, dnsDomainIs, localHostOrDomainIs, dnsDomainLevels, shExpMatch (on host and url; globs of literals . * ?), isInNet (dotted masks incl. patterns with bits outside the mask), isResolvable(Ex), dnsResolve(Ex), myIpAddress(Ex), isInNetEx (CIDRs), sortIpAddressList, combined with ! && ||; leaves are result strings; entry point FindProxyForURL or FindProxyForURLEx; "
+           "DNS answers (none / A / A+A+AAAA / AAAA per name) and interface addresses are injected through the package's testing fields; 2-8 query URLs over 17 hosts (names incl. look-alikes such as example.com.evil.org, IPv4 and bracketed IPv6 literals); the same AST is evaluated by a Go reference implementation of the helper specifications; queries whose arguments fall outside the agreement domain are skipped and counted; then 1-32 goroutines issue the batch through ProxyResolverPool and must get the sequential answers. "
+           "(Entry) every combination of defined entry points x 13 return expressions (strings, numbers, null, undefined, objects, arrays, String objects, non-ASCII). (List) result lists of 1-4 entries from 10 keywords x hosts (DNS, IPv4, IPv6) x ports with padding and 7 malformation kinds, compared with an independent parser (mode, host, port, URL scheme; First = All[0]; malformed => error). "
+           "Non-trivial (Tree) = script uses >= 2 different helpers and the queries reach >= 2 different leaves. Distinct = distinct (script, queries, DNS) / cases.",
     "C03": "rapid draws a tunnel script: routing direct / upstream HTTP / upstream HTTPS / upstream SOCKS5 / custom ConnectFunc / HTTP/1.1 Upgrade (GET -> 101), proxy listener plain or TLS; per direction: early data (client: coalesced with the request head in one segment; target: sent before reading anything or, for Upgrade, in the same write as the 101; upstream proxy: part of the early bytes in the same write as its own 200 / SOCKS reply), 0-5 writes with sizes from {1, 2, 100, 1000, 4095-4097, 16384, 32767-32769, 65536, 100000}, "
            "gates (continue only after the peer has received everything written so far) that vary the interleaving of the two copy directions, and 0-2 writes made after the peer's end-of-stream was seen; half-close order client-first / target-first / simultaneous / client closes the socket. Each case gets a fresh target listener. "
            "Oracle: byte i of direction d is a fixed function of (case, d, i); both endpoints verify the stream incrementally (first bad offset), count bytes, require end-of-stream after the last byte, require writes after the peer's half-close to arrive, and require the target to observe EOF at the end; bound 15 s with one retry. "
@@ -133,6 +143,9 @@ RULES = {
 }
 
 ASSUMPTIONS = {
+    "C14": ["agreement domain: isPlainHostName / isInNet / dnsResolve / isResolvable are not given IPv6 literals; localHostOrDomainIs is not given a host that has a domain part unless it matches exactly; weekdayRange/dateRange/timeRange are clock-dependent and outside the domain",
+            "DNS and interface addresses are injected via ProxyResolverConfig.testingLookupIP / testingMyIPAddress(Ex) (white-box test file in package pac)",
+            "unknown keywords with a valid host:port parse as DIRECT (as C05 states); lower-case keywords and double spaces are not generated"],
     "C03": ["quick tier payloads stay below ~0.5 MiB per direction (thorough: same sizes, many more cases, race detector)",
             "the interleaving of the two copy goroutines inside the proxy is varied by gates, not controlled"],
     "C13": ["quiescence is established black-box: all harness sockets closed, every opened connection accepted, listener_cx_active = 0, then the registry is read once more (Gather is not atomic across families)",
@@ -178,6 +191,11 @@ ASSUMPTIONS = {
 # MANIFEST texts
 
 META = {
+    "C14": {
+        "technique": "property-based testing (rapid): AST-generated PAC programs evaluated differentially (goja + forwarder helpers vs. a Go reference evaluator of the helper specifications), concurrent pool vs. sequential answers, independent result-list parser",
+        "text": "Generated decision trees over all predefined helpers with injected DNS; any helper whose semantics deviates on the agreement domain changes a reachable leaf and is caught (verified with 9 helper mutants); pool answers are compared with sequential ones under up to 32 goroutines (and -race in thorough). 700 scripts x up to 8 queries + 6000 entry/list cases quick; 64000 scripts thorough.",
+        "note": "White-box only for DNS / interface injection. goja itself is trusted to implement JavaScript.",
+    },
     "C03": {
         "technique": "property-based testing (rapid) over generated tunnel scripts with gate-controlled schedules; round-trip oracle with position-determined payload verified at both scripted endpoints",
         "text": "Every generated tunnel (six routings x plain/TLS listener) is driven from both ends by the harness; loss, duplication, reordering, leaked reply bytes, missing end-of-stream, premature close and unpropagated half-close are all detected with the first bad offset. 2500 scripts quick, 24000 under -race thorough.",
